@@ -28,6 +28,9 @@ pub enum Case {
     Simplify3 { spec: Curve3Spec, e: f64 },
     /// a long, sparsely sampled, nearly straight curve: interior vertices at fractions t of the length, offset sideways by
     /// h tolerances (rotated about the axis by rot in 3D); tolerance e_rel of the length
+    /// a curve whose own (construction) tolerance is coarser than the simplification tolerance: vertices `spacing` apart
+    /// with a sideways ripple of amplitude amp_rel * curve tolerance; curve tolerance tol_rel * spacing; e = e_rel * amplitude
+    SimplifyCoarse { dim3: bool, spacing: f64, tol_rel: f64, amp_rel: f64, e_rel: f64, ripple: Vec<f64> },
     SimplifyFlat { dim3: bool, len: f64, e_rel: f64, dir: P3, origin: P3, inner: Vec<(f64, f64, f64)> },
     /// raw RDP on a point list (may double back past chord ends)
     Rdp2 { pts: Vec<P2>, e: f64 },
@@ -49,13 +52,13 @@ impl Property for C05 {
     type Case = Case;
     const ID: &'static str = "C05";
     fn rule() -> &'static str {
-        "cases: resample (by count 2..200, by spacing L/200..0.9L, by max spacing L/200..1.5L) of 2D/3D curves with total length log-uniform over ~1e-3..1e4 (scale 1e-3..1e3), open/closed, uneven vertex density; simplify with tolerance 1e-4..0.3 of the bounding box on curves and on raw point lists that double back past their chord ends, and with tolerance 1e-11..1e-6 of the length on sparse nearly straight curves whose interior vertices stand 0.2..50 tolerances off the chord; fill_gaps with max 0.05..2 of the median gap. Oracle: resampled vertices equal the harness walk of the source at the expected arc positions (so they lie on the source, span it, and are equally spaced / centred); simplified vertices are a subsequence keeping both ends and every discarded vertex is within e of the simplified polyline; gap filling keeps originals in order with collinear evenly spaced inserts and no gap above max. Non-trivial: total length outside [0.5, 2], or a closed curve, or a simplification that discards at least one vertex, or a gap fill that inserts points. Distinct = distinct canonical JSON."
+        "cases: resample (by count 2..200, by spacing L/200..0.9L, by max spacing L/200..1.5L) of 2D/3D curves with total length log-uniform over ~1e-3..1e4 (scale 1e-3..1e3), open/closed, uneven vertex density; simplify with tolerance 1e-4..0.3 of the bounding box on curves and on raw point lists that double back past their chord ends, with a tolerance finer than the curve's own construction tolerance on rippled curves, and with tolerance 1e-11..1e-6 of the length on sparse nearly straight curves whose interior vertices stand 0.2..50 tolerances off the chord; fill_gaps with max 0.05..2 of the median gap. Oracle: resampled vertices equal the harness walk of the source at the expected arc positions (so they lie on the source, span it, and are equally spaced / centred); simplified vertices are a subsequence keeping both ends and every discarded vertex is within e of the simplified polyline; gap filling keeps originals in order with collinear evenly spaced inserts and no gap above max. Non-trivial: total length outside [0.5, 2], or a closed curve, or a simplification that discards at least one vertex, or a gap fill that inserts points. Distinct = distinct canonical JSON."
     }
     fn cases(t: Tier) -> u32 {
         t.pick(2_400_000, 20_000_000)
     }
     fn expected_labels() -> Vec<&'static str> {
-        vec!["resample2", "resample3", "by_count", "by_spacing", "by_max_spacing", "closed", "length<1", "length>1", "simplify2", "simplify3", "rdp_raw", "discarded>0", "fill_gaps", "inserted>0", "max_spacing>=L", "simplify_flat", "flat_with_kink_above_tolerance"]
+        vec!["resample2", "resample3", "by_count", "by_spacing", "by_max_spacing", "closed", "length<1", "length>1", "simplify2", "simplify3", "rdp_raw", "discarded>0", "fill_gaps", "inserted>0", "max_spacing>=L", "simplify_flat", "flat_with_kink_above_tolerance", "simplify_coarser_curve_tolerance"]
     }
     fn strategy(_t: Tier) -> BoxedStrategy<Case> {
         let raw = (polyline2(3, 40, 1.0), prop::collection::vec((any::<u16>(), unif(-0.5, 1.5)), 0..4), logu(-4.0, -0.5)).prop_map(|((_, mut pts), extra, e)| {
@@ -75,6 +78,8 @@ impl Property for C05 {
             2 => (curve2_spec(3, 60, -3.0, 3.0, false), prop_oneof![4 => logu(-4.0, -0.5), 1 => logu(-0.5, 0.5)]).prop_map(|(spec, e)| Case::Simplify2 { spec, e }),
             1 => (curve3_spec(3, 60, -3.0, 3.0, false), prop_oneof![4 => logu(-4.0, -0.5), 1 => logu(-0.5, 0.5)]).prop_map(|(spec, e)| Case::Simplify3 { spec, e }),
             1 => raw,
+            1 => (any::<bool>(), logu(-1.0, 1.0), unif(0.01, 0.08), unif(0.2, 0.9), unif(0.05, 0.6), prop::collection::vec(prop_oneof![unif(0.3, 1.0), unif(-1.0, -0.3)], 3..60))
+                .prop_map(|(dim3, spacing, tol_rel, amp_rel, e_rel, ripple)| Case::SimplifyCoarse { dim3, spacing, tol_rel, amp_rel, e_rel, ripple }),
             1 => (any::<bool>(), logu(-1.0, 3.5), logu(-11.0, -6.0), unit3(), p3(1.0), prop::collection::vec((unif(0.02, 0.98), prop_oneof![logu(-0.7, 1.7), logu(-0.7, 1.7).prop_map(|h| -h)], unif(0.0, 6.2832)), 1..8))
                 .prop_map(|(dim3, len, e_rel, dir, origin, inner)| Case::SimplifyFlat { dim3, len, e_rel, dir, origin, inner }),
             1 => (polyline2(2, 30, 1.0), unif(0.05, 2.0)).prop_map(|((_, pts), max)| Case::FillGaps2 { pts, max }),
@@ -88,6 +93,7 @@ impl Property for C05 {
             Case::Resample3 { spec, mode } => resample3(spec, mode),
             Case::Simplify2 { spec, e } => simplify2(spec, *e),
             Case::Simplify3 { spec, e } => simplify3(spec, *e),
+            Case::SimplifyCoarse { dim3, spacing, tol_rel, amp_rel, e_rel, ripple } => simplify_coarse(*dim3, *spacing, *tol_rel, *amp_rel, *e_rel, ripple),
             Case::SimplifyFlat { dim3, len, e_rel, dir, origin, inner } => simplify_flat(*dim3, *len, *e_rel, dir, origin, inner),
             Case::Rdp2 { pts, e } => rdp_raw(pts, *e),
             Case::FillGaps2 { pts, max } => fill(&crate::oracle::to_p2(pts), *max),
@@ -524,6 +530,50 @@ fn simplify_flat(dim3: bool, len: f64, e_rel: f64, dir: &P3, origin: &P3, inner:
     if kink {
         cx.nontrivial();
     }
+    cx.pass()
+}
+
+/// The tolerance passed to simplify is the one that counts, also when the curve was built with a coarser one.
+fn simplify_coarse(dim3: bool, spacing: f64, tol_rel: f64, amp_rel: f64, e_rel: f64, ripple: &[f64]) -> Verdict {
+    let mut cx = Ctx::new();
+    cx.label("simplify_coarser_curve_tolerance");
+    let tol_c = tol_rel * spacing;
+    let amp = amp_rel * tol_c;
+    let e = e_rel * amp;
+    if dim3 {
+        let pts: Vec<Pt<3>> = ripple.iter().enumerate().map(|(i, r)| engeom::Point3::new(i as f64 * spacing, r * amp, if i % 3 == 0 { 0.5 * r * amp } else { 0.0 })).collect();
+        let c = match engeom::Curve3::from_points(&pts, tol_c) {
+            Ok(c) => c,
+            Err(m) => return Verdict::fail("C05/from_points/rejected_valid", m.to_string()),
+        };
+        let src: Vec<Pt<3>> = c.points().to_vec();
+        ensure!(src.len() == pts.len(), "C05/simplify_coarse3/construction_merged_vertices", "{} of {} vertices kept at construction", src.len(), pts.len());
+        let r = match guarded(|| c.simplify(e)) {
+            Ok(r) => r,
+            Err(m) => return Verdict::fail("C05/simplify_coarse3/panic", m),
+        };
+        match validate_simplified("simplify_coarse3", &src, r.points(), e, 0.0) {
+            Ok(d) => cx.label_if(d > 0, "discarded>0"),
+            Err(f) => return Verdict::Fail(f),
+        }
+    } else {
+        let pts: Vec<Pt<2>> = ripple.iter().enumerate().map(|(i, r)| engeom::Point2::new(i as f64 * spacing, r * amp)).collect();
+        let c = match engeom::Curve2::from_points(&pts, tol_c, false) {
+            Ok(c) => c,
+            Err(m) => return Verdict::fail("C05/from_points/rejected_valid", m.to_string()),
+        };
+        let src: Vec<Pt<2>> = c.points().to_vec();
+        ensure!(src.len() == pts.len(), "C05/simplify_coarse2/construction_merged_vertices", "{} of {} vertices kept at construction", src.len(), pts.len());
+        let r = match guarded(|| c.simplify(e)) {
+            Ok(r) => r,
+            Err(m) => return Verdict::fail("C05/simplify_coarse2/panic", m),
+        };
+        match validate_simplified("simplify_coarse2", &src, r.points(), e, 0.0) {
+            Ok(d) => cx.label_if(d > 0, "discarded>0"),
+            Err(f) => return Verdict::Fail(f),
+        }
+    }
+    cx.nontrivial();
     cx.pass()
 }
 
